@@ -27,7 +27,7 @@ from errno import ECONNRESET, EPIPE
 from io import BytesIO
 
 from gevent import Timeout
-from gevent.ssl import SSLSocket, SSLError, create_default_context
+from gevent.ssl import SSLSocket, SSLError, SSLContext, PROTOCOL_TLS_CLIENT
 
 from slimta import logging
 from . import ConnectionLost, BadReply
@@ -43,6 +43,20 @@ except ImportError:
         pass
 
 __all__ = ['IO']
+
+
+def create_default_context():
+    """The client-side defaults of :func:`ssl.create_default_context`
+    (certificate required, host name checked, system trust store) on gevent's
+    cooperative context class. ``gevent.ssl.create_default_context`` is the
+    standard library's function and returns a standard, blocking context: a
+    peer that stalls in the handshake would stall the whole process, out of
+    reach of every timeout.
+
+    """
+    context = SSLContext(PROTOCOL_TLS_CLIENT)
+    context.load_default_certs()
+    return context
 
 line_pattern = re.compile(br'(.*?)\r?\n')
 reply_line_pattern = re.compile(br'(([1-5]\d\d)([ \t-])(.*?))\r?\n')
